@@ -12,6 +12,8 @@ namespace Romea.RayCast
 /-- everything the merge argument needs to know about one moving axis -/
 structure AxisFacts (f r o e R T δ : ℝ) (σ K E : ℤ) : Prop where
   δpos : 0 < δ
+  /-- the step sign agrees with the order of the cells -/
+  order : (σ = 1 → K ≤ E) ∧ (σ = -1 → E ≤ K)
   /-- the crossings the ray really makes on this axis lie before the end of the ray -/
   needed : ∀ m : ℕ, m < (E - K).natAbs → T + m * δ ≤ R
   /-- all later ones lie at or beyond the end -/
@@ -42,7 +44,7 @@ theorem axis_pos {f r o e R D T δ : ℝ} {K E : ℤ} (hr : 0 < r) (hR : 0 < R)
     have : K < E + 1 := by exact_mod_cast this
     omega
   have hN : ((E - K).natAbs : ℤ) = E - K := by omega
-  refine ⟨by rw [hδ, habs]; positivity, ?_, ?_, ?_, ?_⟩
+  refine ⟨by rw [hδ, habs]; positivity, ⟨fun _ => hKE, fun h => by omega⟩, ?_, ?_, ?_, ?_⟩
   · intro m hm
     rw [mul_le_of_pos hDpos, htau, hRD]
     have : (K : ℤ) + 1 + m ≤ E := by omega
@@ -91,7 +93,7 @@ theorem axis_neg {f r o e R D T δ : ℝ} {K E : ℤ} (hr : 0 < r) (hR : 0 < R)
     have : E < K + 1 := by exact_mod_cast this
     omega
   have hN : ((E - K).natAbs : ℤ) = K - E := by omega
-  refine ⟨by rw [hδ, habs]; positivity, ?_, ?_, ?_, ?_⟩
+  refine ⟨by rw [hδ, habs]; positivity, ⟨fun h => by omega, fun _ => hKE⟩, ?_, ?_, ?_, ?_⟩
   · intro m hm
     rw [mul_le_of_pos hD', htau]
     have : E + 1 ≤ (K : ℤ) - m := by omega
